@@ -20,6 +20,20 @@ static ALLOC: CountingAlloc = CountingAlloc;
 
 const NEVER: u64 = u64::MAX;
 
+/// Runs a thread body; a panic inside the code under test becomes a value (and `on_panic`
+/// releases whoever waits for this thread) instead of a hang or a process abort.
+fn guarded<T>(on_panic: impl FnOnce(), f: impl FnOnce() -> T) -> Result<T, PanicInfo> {
+    let r = catch(f);
+    if r.is_err() {
+        on_panic();
+    }
+    r
+}
+
+fn report_panic(m: &mut Monitor, prop: &str, who: &str, label: &str, p: &PanicInfo) {
+    m.violation(&format!("{prop}-panic-in-{who}:{}", p.site()), json!({"backend": label, "panic": p.what, "note": "schedule-dependent: replay re-runs the seeded workload"}));
+}
+
 // ===========================================================================
 // History workload shared by C41 (removal takes effect) and C42 (tables consistent)
 // ===========================================================================
@@ -566,13 +580,32 @@ fn run_history<B: Backend>(args: &Args, m41: &mut Monitor, m42: &mut Monitor, la
     let seed = args.seed;
     let (wout, routs) = std::thread::scope(|s| {
         let (cfg, sh) = (&cfg, &sh);
-        let wh = s.spawn(move || history_writer::<B>(cfg, seed, w, wafc, sh, hard_cap));
-        let rhs: Vec<_> = views.into_iter().enumerate().map(|(r, v)| s.spawn(move || history_reader::<B>(cfg, seed, r, v, sh))).collect();
+        let wh = s.spawn(move || guarded(|| sh.stop.store(true, Ordering::SeqCst), || history_writer::<B>(cfg, seed, w, wafc, sh, hard_cap)));
+        let rhs: Vec<_> = views.into_iter().enumerate().map(|(r, v)| s.spawn(move || guarded(|| (), || history_reader::<B>(cfg, seed, r, v, sh)))).collect();
         let wout = wh.join().expect("writer thread");
         let routs: Vec<_> = rhs.into_iter().map(|h| h.join().expect("reader thread")).collect();
         (wout, routs)
     });
     drop(env);
+    let mut routs_ok = vec![];
+    for r in routs {
+        match r {
+            Ok(x) => routs_ok.push(x),
+            Err(p) => {
+                report_panic(m41, "c41", "reader", label, &p);
+                report_panic(m42, "c42", "reader", label, &p);
+            }
+        }
+    }
+    let routs = routs_ok;
+    let wout = match wout {
+        Ok(w) => w,
+        Err(p) => {
+            report_panic(m41, "c41", "writer", label, &p);
+            report_panic(m42, "c42", "writer", label, &p);
+            return;
+        }
+    };
 
     // ---- C41: removal takes effect ----------------------------------------------------------
     let chan_num = |i: usize| sh.chans[i].get().map(|c| c.num).unwrap_or(u64::MAX);
@@ -696,7 +729,7 @@ fn run_seq<B: Backend>(args: &Args, m: &mut Monitor, label: &str) {
     let (wcount, routs) = std::thread::scope(|s| {
         let (wops, done, chans) = (&wops, &done, &chans);
         // Writer: churn OTHER channels so every reader's cached key is invalidated again and again.
-        let wh = s.spawn(move || {
+        let wh = s.spawn(move || guarded(|| (), || {
             let mut rng = Rng::new(seed).fork(0x40_0001);
             let krng = DetRng::new(mix2(seed, 0x40_0002));
             let mut mine: Vec<LocalChannelId> = vec![];
@@ -723,8 +756,8 @@ fn run_seq<B: Backend>(args: &Args, m: &mut Monitor, label: &str) {
                 if n > 50_000_000 { break; }
             }
             (n, errs)
-        });
-        let rhs: Vec<_> = views.into_iter().enumerate().map(|(r, afc)| s.spawn(move || {
+        }));
+        let rhs: Vec<_> = views.into_iter().enumerate().map(|(r, afc)| s.spawn(move || guarded(|| { done.fetch_add(1, Ordering::SeqCst); }, || {
             let mut rng = Rng::new(seed).fork(0x40_1000 + r as u64);
             let client = Client::new(afc);
             let mut out = ROut { ok: 0, failed: [0; 4], after_invalidation: 0, second_ctx_refused: 0, second_ctx_granted: 0, opened: 0, viol: vec![] };
@@ -822,11 +855,18 @@ fn run_seq<B: Backend>(args: &Args, m: &mut Monitor, label: &str) {
             }
             done.fetch_add(1, Ordering::SeqCst);
             out
-        })).collect();
-        let routs: Vec<ROut> = rhs.into_iter().map(|h| h.join().expect("reader")).collect();
+        }))).collect();
+        let routs: Vec<Result<ROut, PanicInfo>> = rhs.into_iter().map(|h| h.join().expect("reader")).collect();
         (wh.join().expect("writer"), routs)
     });
-    let (wn, werrs) = wcount;
+    let (wn, werrs) = match wcount {
+        Ok(x) => x,
+        Err(p) => {
+            report_panic(m, "c40", "writer", label, &p);
+            (0, vec![])
+        }
+    };
+    let routs: Vec<ROut> = routs.into_iter().filter_map(|r| r.map_err(|p| report_panic(m, "c40", "reader", label, &p)).ok()).collect();
     for e in werrs.iter().take(2) {
         m.inconclusive(&format!("writer churn operation failed: {e}"));
     }
@@ -890,9 +930,9 @@ where
         for s in &slots { s.store(add(&krng).unwrap(), Ordering::SeqCst); }
     }
     struct TOut { viol: Vec<(String, Value)>, c: HashMap<&'static str, u64> }
-    let outs: Vec<TOut> = std::thread::scope(|s| {
+    let outs: Vec<Result<TOut, PanicInfo>> = std::thread::scope(|s| {
         let (state, chans, slots, add) = (&state, &chans, &slots, &add);
-        let hs: Vec<_> = (0..threads).map(|t| s.spawn(move || {
+        let hs: Vec<_> = (0..threads).map(|t| s.spawn(move || guarded(|| (), || {
             let mut rng = Rng::new(seed).fork(0x44_1000 + t as u64);
             let krng = DetRng::new(mix2(seed, 0x44_2000 + t as u64));
             let client = Client::new(state.clone());
@@ -1007,9 +1047,10 @@ where
                 bump(&mut out, "loan_dropped_at_end");
             }
             out
-        })).collect();
-        hs.into_iter().map(|h| h.join().expect("loan thread")).collect()
+        }))).collect();
+        hs.into_iter().map(|h| h.join().expect("loan thread")).collect::<Vec<Result<TOut, PanicInfo>>>()
     });
+    let outs: Vec<TOut> = outs.into_iter().filter_map(|r| r.map_err(|p| report_panic(m, "c44", "worker", round, &p)).ok()).collect();
     let mut evals = 0;
     let mut distinct = 0;
     for (t, o) in outs.into_iter().enumerate() {
